@@ -27,8 +27,12 @@ SCENARIOS = [('create_enddef', 1), ('create_enddef', 2), ('create_close', 1), ('
              ('put_get_coll', 1), ('put_get_coll', 2), ('put_get_indep', 1), ('put_get_indep', 2),
              ('sync_close_indep', 1), ('sync_close_indep', 2), ('redef_indep', 1), ('redef_indep', 2),
              ('redef_move', 1), ('redef_move', 2), ('wait_mixed', 1), ('wait_mixed', 2), ('wait_puts', 2), ('wait_gets', 2),
-             ('wait_indep', 1), ('wait_indep', 2), ('data_mode_meta', 1), ('data_mode_meta', 2),
+             ('wait_indep', 1), ('wait_indep', 2), ('wait_mixed_ina', 2), ('data_mode_meta', 1), ('data_mode_meta', 2),
              ('open_read', 1), ('open_read', 2), ('open_bighdr', 1), ('zero_req', 2), ('hcoll_header', 2)]
+# One defect, two table rows: req_commit's write phase is `err = wait_getput(WR)` or, under intra-node aggregation,
+# `err = ncmpio_intra_node_aggregation_nreqs(...)` -- the same `err`, overwritten by the same read phase, repaired by
+# the same patch.  Both rows report under the signature of the finding (F3).
+SIG_ALIAS = {'drop@req_commit>ncmpio_intra_node_aggregation_nreqs:overwritable': 'drop@req_commit>wait_getput:overwritable'}
 # extra classes injected at every position of these site functions also in the quick tier (witness of a known finding)
 EXTRA_CLASSES = {'hdr_fetch': ['MPI_ERR_AMODE']}
 LATER_LABELS = ('wait_all_mixed', 'wait_mixed')      # API calls whose request mix has a read phase after the write phase
@@ -41,15 +45,14 @@ LATER_LABELS = ('wait_all_mixed', 'wait_mixed')      # API calls whose request m
 PARSER_DESYNC_ROWS = ('hdr_get_NC_var>hdr_get_uint32.2', 'hdr_get_NC_var>hdr_get_uint64.2')
 
 
-def local_known(V):
-    """finding lines proposed in findings/C11.txt count as known until the integrator merges them"""
-    try:
-        for line in open(os.path.join(VERIF, 'findings', 'C11.txt')):
-            m = re.match(r'finding:\s+property=(\S+)\s+sig=(\S+)\s+(.*)$', line.strip())
-            if m and m.group(1) == PROP and not any(k['sig'] == m.group(2) for k in V.known):
-                V.known.append(dict(sig=m.group(2), text=m.group(3)))
-    except OSError:
-        pass
+def keeps(row):
+    """mirror of PnVerif.IoStatus.Pattern.keeps: a non-zero incoming code stays non-zero"""
+    p = row['pattern']
+    if p in ('propagate', 'returnNow'):
+        return True
+    if p in ('mapEFILEthenPropagate', 'mapEFILEthenReturn', 'constant'):
+        return row['code'] != 0
+    return False
 
 
 class Resolver:
@@ -162,7 +165,6 @@ def run_case(exe, wd, tag, scen, n, rank, k, cls, watchdog):
 
 def run_check(tier, seed):
     V = Verdict(PROP, tier, seed)
-    local_known(V)
     rng = SplitMix64(seed * 104729 + 11)
     V.assumptions = [
         'single fault: exactly one MPI-IO data-transfer call of one rank reports a failure, every other call succeeds (the quantifier of the property)',
@@ -407,6 +409,7 @@ def run_check(tier, seed):
             if observed == 0:
                 if pick == '0' and droprow != '-':
                     sig = 'drop@' + row_sig(droprow)
+                    sig = SIG_ALIAS.get(sig, sig)
                 else:
                     sig = 'unpredicted-drop@%s:%s' % (sid, label)
                 report(sig, '%s: the %s of %s fails with %s and %s returns NC_NOERR on the failing rank' % (who, site['call'], sid, m['cls'], label), replay)
@@ -435,7 +438,18 @@ def run_check(tier, seed):
         V.cov['exhaustive'] = False
         V.cov['samples'] = samples + ['theorem no_silent_drop_partial : ∀ s ∈ sites, ∀ p ∈ pathsOf s, ∀ c ∈ mpiClasses, excepted s p (ncOf c.2) = false → ∀ r ∈ apiStatus s p c.2, r ≠ 0',
                                       'theorem no_silent_drop_counterexample : ¬ NoSilentDrop_Statement']
+        # the exceptions PRESENT in the regenerated table (Props/C11.lean `exceptions`) against the known findings:
+        # the Lean theorems hold for whatever rows drop; which drops are tolerated is decided here
+        known_sigs = set(kf['sig'] for kf in V.known)
+        present = [r for r in table['sites'] + table['chains'] if not keeps(r)]
+        V.cov['table_exceptions'] = sorted(r['id'] for r in present)
+        untolerated = [r['id'] for r in present
+                       if SIG_ALIAS.get('drop@' + row_sig(r['id']), 'drop@' + row_sig(r['id'])) not in (known_sigs | new_sigs)
+                       and r['id'] not in PARSER_DESYNC_ROWS]
         if new_fail == 0:
+            if untolerated:
+                V.broken_tie('the regenerated table has rows that drop a failure, are not known findings and were not reached by the fault-injection programs',
+                             dict(rows=untolerated, note='Props/C11.lean: these rows are in `exceptions`, so NoSilentDrop_Statement is refuted (no_silent_drop_iff_no_exceptions)'))
             if unmapped:
                 V.broken_tie('correspondence: run-time calls that cannot be mapped to a row of the generated tables', unmapped[:10])
             if tie_diffs:
